@@ -22,6 +22,7 @@
 
 #include <cassert>
 #include <cctype>
+#include <cfloat>
 #include <cmath>
 #include <cstdio>
 #include <cstdlib>
@@ -57,10 +58,12 @@ using std::size_t;
 
 
 
-// The maximum number of digits that sprintf can put in a buffer.
-// 100 for now.  We're using this because we want to avoid transcoding
-// number strings when we don't have to,
-const size_t    MAX_PRINTF_DIGITS = 100;
+// The maximum number of characters that sprintf can put in a buffer
+// for a number: a sign, the DBL_MAX_10_EXP + 1 integer digits of the
+// largest double, the decimal point and the 35 fraction digits of the
+// longest format in thePrintfStrings.  We're using this because we want
+// to avoid transcoding number strings when we don't have to,
+const size_t    MAX_PRINTF_DIGITS = 1 + (DBL_MAX_10_EXP + 1) + 1 + 35;
 
 // The maximum number of characters for a floating point number.
 const size_t    MAX_FLOAT_CHARACTERS = 100;
